@@ -167,8 +167,9 @@ example : (notifyT demoT 1 7).2 = [101, 100] ∧ Tbl.getD demoT.n (1, 7) = [100,
 `Reachable s` (`Sched/MachineHost.lean`): produced from the initial state by any list of host operations
 of the driver (compile/recompile a `ProgOK` program, host calls, `advance`, `execute`, `step`,
 `reset-director`, `reset`, reading the output), **without `save`/`load`**; modulo running out of fuel.
-`ProgOK`: object ids < 100 and no `local.p0 waittill` (waiting on a *thread object* by name); the only
-way a thread becomes a wait source is `waitthread` (channel 0).  The statements rest on `iAll`: the
+`ProgOK`: object ids < 100, and a `local.p0 waittill n` (waiting on a *thread object* by name, the `hub`
+generator family) does not use the engine's own destruction events `delete` / `remove` as `n` — every
+generator family of tools/vlib/schedgen.py is inside this class.  The statements rest on `iAll`: the
 invariant `Inv` holds through every function of the machine, nested executions and destruction cascades
 included. -/
 
@@ -307,5 +308,31 @@ def demoRewait : List HostOp :=
 
 example : (runOps {} demoRewait).outOfFuel = false ∧ (runOps {} demoRewait).out = ["m9", "m2"] ∧
     (runOps {} demoRewait).notify = [((50, 7), [101])] := by decide +kernel
+
+/-! ### non-vacuity: a thread object as wait source on named channels (the `hub` family) -/
+
+/-- the hub (101) starts a waiter (102: `local.p0 waittill_any 1 2`) and a notifier (103: waits 5 ms, then
+    `local.p0 notify 1`), then waits 9 ms -/
+def demoHub : List HostOp :=
+  [.script [[.mark 1, .thread 1], [.thread 2, .thread 3, .wait 9, .mark 2], [.waittillParent [1, 2], .mark 3],
+      [.wait 5, .notifyParent 1, .mark 4]] [0, 0, 0, 0], .call 0 [], .takeOut]
+
+theorem demoHub_reachable (ops : List HostOp) (h : ∀ op ∈ ops, op.ok) : Reachable (runOps {} (demoHub ++ ops)) :=
+  (reachable_iff _).2 ⟨demoHub ++ ops, by
+    have h0 : ∀ op ∈ demoHub, op.ok := by decide
+    intro op hop
+    rcases List.mem_append.1 hop with hm | hm
+    · exact h0 op hm
+    · exact h op hm, rfl⟩
+
+/-- the waiter is registered on the *thread* 101 under both names, mirrored -/
+example : (runOps {} demoHub).outOfFuel = false ∧
+    (runOps {} demoHub).notify = [((101, 1), [102]), ((101, 2), [102])] ∧
+    (runOps {} demoHub).waitFor = [((102, 1), [101]), ((102, 2), [101])] := by decide +kernel
+
+/-- the notifier's `local.p0 notify 1` at clock 5 wakes the waiter nested (marker 3 before marker 4) and
+    cancels its other registration -/
+example : (runOps {} (demoHub ++ [.step 5])).out = ["m4", "m3"] ∧ (runOps {} (demoHub ++ [.step 5])).notify = [] := by
+  decide +kernel
 
 end Morfuse.Sched
